@@ -61,3 +61,59 @@ CHECKS["C20"] = dict(
         P("valid", "unit", "TestC20Valid", dict(checks=2000, shards=1, timeout=600), dict(checks=200000, shards=4, timeout=3000)),
     ],
 )
+
+CHECKS["C01"] = dict(
+    level="exploration",
+    rule=("rapid-generated autocommit histories of 1-40 Set/SetReader(short reads)/Create+Write*(incl. empty writes)+Close/Delete/Get/GetReader/GetKeys calls over 1-4 keys "
+          "(colliding short keys, exotic valid UTF-8, 256-1024-rune keys, the empty key for Set/Get, a never-written key) with content lengths biased to 0,1,2047-2049,4095-4097,32767-32769,65535-65537 and up to 100 KiB; "
+          "against a map model, with Get/GetReader of every key and GetKeys compared after every step, on a fresh Badger + file tree per case. "
+          "non-trivial = the history overwrites or deletes-and-recreates a key AND writes a content longer than 2048 bytes. distinct = distinct case values."),
+    assumptions=["keys are valid UTF-8; Delete of the empty key is unspecified and not generated",
+                 "background cleanup jobs run on the real worker pool concurrently with the next steps (they must never change reads)"],
+    parts=[
+        P("seq", "seq", "TestC01", dict(checks=160, shards=8, timeout=900), dict(checks=6000, shards=16, timeout=3000)),
+    ],
+)
+
+_E1_ASSUME = ["one goroutine issues all client calls; only fs_db's own background cleanup runs concurrently (it must never change reads)",
+              "error classes are compared with errors.Is against the exported sentinels",
+              "writes through ended transaction handles are not generated here (known finding C13-late-write-accepted is examined under C13 only)"]
+
+CHECKS["C02"] = dict(
+    level="exploration",
+    rule=("rapid-generated sequential histories of 5-60 steps over up to 6 simultaneously open transactions (levels RU/RC/RR/SER and Begin() without argument), 3-5 keys, "
+          "ops Begin/Set/Delete/Get/GetKeys/Commit/Rollback by any open transaction or autocommit, synchronous collector runs at any position, a fifth of the cases concentrating writes on one key (many versions). "
+          "Oracle: MVCC reference model (harness/model); after EVERY step every open transaction and the autocommit client read every key and GetKeys and are compared. "
+          "non-trivial = at least two different levels were open simultaneously AND a collector step ran while a snapshot (RR/SER) transaction was open that was already >= 2 committed versions of some key behind."),
+    assumptions=_E1_ASSUME + ["ReadUncommitted: where a commit re-sequenced an older write behind a later uncommitted one, both candidates are accepted (statement is ambiguous there)"],
+    parts=[P("seq", "seq", "TestC02", dict(checks=208, shards=8, timeout=900), dict(checks=10000, shards=16, timeout=3000))],
+)
+
+CHECKS["C03"] = dict(
+    level="exploration",
+    rule=("rapid-generated commit-heavy sequential histories (5-50 steps, 2-4 keys, overlapping write sets with several writes per key, autocommit writes and deletes as conflict sources, rollbacks, empty commits). "
+          "Oracle: reference model - Commit error class must be ErrTxSerialization iff (snapshot level and some written key has a newer committed version), never for RU/RC; after every step autocommit Get of every key and GetKeys equal the model "
+          "(all keys of a commit switch together, nothing else changes). non-trivial = a predicted conflict on exactly one of >= 2 written keys, or a successful commit of >= 2 keys in a history with >= 2 commits."),
+    assumptions=_E1_ASSUME,
+    parts=[P("seq", "seq", "TestC03", dict(checks=208, shards=8, timeout=900), dict(checks=10000, shards=16, timeout=3000))],
+)
+
+CHECKS["C09"] = dict(
+    level="exploration",
+    rule=("C02-style histories with the collector either sprinkled in or run after EVERY step (half of the cases; sometimes twice in a row, also before the first op and right after Begin). "
+          "Oracle 1: reference model with full read-back by every actor immediately before and after each collector run and after every other step (contents are read completely). "
+          "Oracle 2 (metamorphic): the same program with all collector steps removed yields the identical observation log. "
+          "non-trivial = some collector run actually removed >= 1 content file (hook trace) while >= 1 transaction was open."),
+    assumptions=_E1_ASSUME,
+    parts=[P("seq", "seq", "TestC09", dict(checks=160, shards=8, timeout=900), dict(checks=8000, shards=16, timeout=3000))],
+)
+
+CHECKS["C13"] = dict(
+    level="exploration",
+    rule=("C02-style histories in which ~35% of the operations are issued through handles of ENDED transactions (committed, rolled back, commit-failed, vanished at reopen) or through handles naming a transaction id that never existed; "
+          "every op kind (Get, GetReader, GetKeys, Set, SetReader, Create+Close, Delete, Commit, Rollback); observers at all four levels stay open; a restart ends every history. "
+          "Oracle: late op => ErrTxNotFound (Rollback => nil); full read-back of every observer after every step equals the reference model (which ignores late ops); state after restart equals the model. "
+          "non-trivial = >= 1 late write was issued while a ReadUncommitted observer was open."),
+    assumptions=_E1_ASSUME[:2] + ["known finding C13-late-write-accepted (writes through ended handles return nil and leak to ReadUncommitted readers): while it is listed as open, exactly that behaviour is excused and counted; everything else about late ops stays a violation"],
+    parts=[P("seq", "seq", "TestC13", dict(checks=160, shards=8, timeout=900), dict(checks=6000, shards=16, timeout=3000))],
+)
